@@ -28,7 +28,7 @@ func init() {
 		Batches: tiered(72, 1440),
 		Run:     runC03,
 		Par:     8,
-		Timeout: timeoutFor(10*time.Minute, 45*time.Minute),
+		Timeout: timeoutFor(3*time.Minute, 45*time.Minute),
 	})
 }
 
